@@ -410,6 +410,17 @@ class _Missing:
     def __repr__(self):
         return '<MISSING>'
 
+    # (equal to any other instance: the reference model snapshots what it emits with deepcopy, and a downstream
+    # distinct_until_changed must see the copy of the sentinel as the same VALUE; the accumulator recognises the sentinel with `is`)
+    def __eq__(self, other):
+        return type(other) is _Missing
+
+    def __ne__(self, other):
+        return type(other) is not _Missing
+
+    def __hash__(self):
+        return 7
+
 
 _MISSING = _Missing()
 
